@@ -933,7 +933,7 @@ fn has_fold(c: &trustfall_core::ir::IRQueryComponent) -> bool {
 /// fixed probes for parameter completion and the recursion call shapes
 fn fixed_probes(schema: &Schema, out: &mut Out) {
     let probes: Vec<(&str, Vec<&str>)> = vec![
-        ("query { Thing { next { id @output } } }", vec!["S@1:Thing(hi=n,lo=n)", "N@1/1:Thing.next(hi=i1000,lo=n)", "P@2:Thing.id"]),
+        ("query { Thing { next { id @output } } }", vec!["S@1:Thing(hi=n,lo=n)", "N@1/1:Thing.next(hi=i6,lo=n)", "P@2:Thing.id"]),
         ("query { Item { up { id @output } } }", vec!["S@1:Item(hi=n,lo=i0)", "N@1/1:Item.up(hi=i500)"]),
         ("query { Box { inner { id @output } } }", vec!["S@1:Box()", "N@1/1:Box.inner(lo=i0)"]),
         ("query { Leaf { id @output } }", vec!["S@1:Leaf(hi=i1000)", "P@1:Leaf.id"]),
